@@ -14,6 +14,17 @@
 (* machine takes its own Step.  So each recorded run is checked to be a    *)
 (* behaviour of the specification, state by state, and the machine         *)
 (* invariants are evaluated on every state of every run.                   *)
+(* The attempt brackets are in addition validated against the search       *)
+(* machine (Search.tla: Seek / Try): attempts start at or after the search *)
+(* position, in increasing order, no offset the dumped start predicate     *)
+(* admits is passed over, an anchored search makes its single attempt at   *)
+(* the position given, after a match the search resumes at its end (one    *)
+(* character further after an empty one), and when the record ends nothing *)
+(* admitted is left unexamined.  The iterator keeps its position when a    *)
+(* search finds nothing (exec.rs Matches::next leaves `position` as it     *)
+(* was), so polling it again repeats the last search from the same place:  *)
+(* a Repoll step.  A departure is printed as kind "search"                 *)
+(* and the lock-step validation continues.                                 *)
 (* A step the specification does not allow takes the run to "mismatch",    *)
 (* prints what differed, and ends that run (other runs continue).          *)
 (***************************************************************************)
@@ -25,12 +36,15 @@ NTr == Len(Traces)
 BT == INSTANCE BacktrackVM WITH Dev <- {"D8"}
 PV == INSTANCE PikeVM WITH Dev <- {"D8"}
 
-VARIABLES k, l, vm, st
-vars == <<k, l, vm, st>>
+VARIABLES k, l, vm, st, sr
+vars == <<k, l, vm, st, sr>>
 
 Idle == [status |-> "idle"]
 
-Init == k \in 1..NTr /\ l = 1 /\ vm = Idle /\ st = "ok"
+\* the search machine: from = the byte offset the search stands at (Len+1: nothing left),
+\* cursor = where the current next() call began, at = where the running attempt started,
+\* bad = a departure was already reported
+Init == k \in 1..NTr /\ l = 1 /\ vm = Idle /\ st = "ok" /\ sr = [from |-> 0, cursor |-> 0, at |-> -1, bad |-> FALSE]
 
 T == Traces[k]
 P == T.prog
@@ -57,43 +71,73 @@ EventOk(e) ==
   \* inside a sequence); the end of a successful one is a boundary
   /\ (e[1] = 3 /\ e[2] = 1) => OnBoundary(B, e[3])
 
+SAdmits(sp, p) ==
+  CASE sp.kind = "Arbitrary" -> TRUE
+    [] sp.kind = "ByteSet" -> p < Len(B) /\ InSeq(sp.bytes, B[p + 1])
+    [] sp.kind = "ByteSeq" -> p + Len(sp.bytes) <= Len(B) /\ SubSeq(B, p + 1, p + Len(sp.bytes)) = sp.bytes
+    [] sp.kind = "StartAnchored" -> p = 0
+Anchored == P.start_pred.kind = "StartAnchored"
+RECURSIVE NextBoundary(_)
+\* the next character boundary after byte offset p (Len+1 when there is none)
+NextBoundary(p) == IF p >= Len(B) THEN Len(B) + 1 ELSE IF OnBoundary(B, p + 1) THEN p + 1 ELSE NextBoundary(p + 1)
+\* Try at p is a step of the search machine standing at `from`
+TryOk(from, p) ==
+  /\ p >= from
+  /\ IF Anchored THEN p = from
+     ELSE \A q \in from..(p - 1) : OnBoundary(B, q) => ~SAdmits(P.start_pred, q)
+\* nothing admitted is left when the record ends
+RestOk(from) == from > Len(B) \/ (~Anchored /\ \A q \in from..Len(B) : OnBoundary(B, q) => ~SAdmits(P.start_pred, q))
+SearchNote(why, e) ==
+  PrintT("J " \o ToJson([kind |-> "search", id |-> T.rid, h |-> T.h, var |-> T.var, at |-> l, why |-> why,
+                          event |-> e, from |-> sr.from, pred |-> P.start_pred]))
+
 Mismatch(why, e) ==
   /\ st' = "mismatch"
   /\ PrintT("J " \o ToJson([kind |-> "trace", id |-> T.rid, h |-> T.h, var |-> T.var, at |-> l, why |-> why,
                             event |-> e,
                             model |-> IF vm.status \in {"idle", "matched", "failed"} THEN <<vm.status>>
                                       ELSE LET sh == Shown(vm) IN <<vm.status, sh.ip, sh.pos, sh.depth, sh.fwd>>]))
-  /\ UNCHANGED <<k, vm>> /\ l' = l
+  /\ UNCHANGED <<k, vm, sr>> /\ l' = l
 
 Consume ==
   /\ st = "ok" /\ l <= Len(T.ev)
   /\ LET e == T.ev[l] IN
      IF ~EventOk(e) THEN
         /\ PrintT("J " \o ToJson([kind |-> "event", id |-> T.rid, h |-> T.h, var |-> T.var, at |-> l, event |-> e]))
-        /\ st' = "badevent" /\ UNCHANGED <<k, l, vm>>
+        /\ st' = "badevent" /\ UNCHANGED <<k, l, vm, sr>>
      ELSE
      CASE e[1] = 0 ->
             IF vm.status \in {"idle", "matched", "failed"} /\ e[2] = 0
             THEN /\ vm' = IF IsBT THEN BT!InitState(P, e[3]) ELSE PV!PInitState(P, e[3])
                  /\ l' = l + 1 /\ UNCHANGED <<k, st>>
+                 /\ LET repoll == RestOk(sr.from) /\ TryOk(sr.cursor, e[3])      \* the exhausted search is repeated
+                        ok == sr.bad \/ TryOk(sr.from, e[3]) \/ repoll IN
+                    /\ IF ok THEN TRUE ELSE SearchNote("the attempt is not a step of the search machine", e)
+                    /\ sr' = [sr EXCEPT !.at = e[3], !.bad = ~ok \/ sr.bad]
             ELSE Mismatch("attempt started while the machine was running", e)
        [] e[1] = 1 ->
             IF vm.status = "run" /\ Agrees(vm, e)
             THEN /\ vm' = IF IsBT THEN BT!Step(P, B, vm) ELSE PV!PStep(P, B, vm)
-                 /\ l' = l + 1 /\ UNCHANGED <<k, st>>
+                 /\ l' = l + 1 /\ UNCHANGED <<k, st, sr>>
             ELSE Mismatch("dispatch differs from the machine", e)
        [] e[1] = 3 ->
             IF /\ vm.status \in {"matched", "failed"}
                /\ (e[2] = 1) = (vm.status = "matched")
                /\ (vm.status = "matched" => EndPos(vm) = e[3])
-            THEN l' = l + 1 /\ UNCHANGED <<k, vm, st>>
+            THEN /\ l' = l + 1 /\ UNCHANGED <<k, vm, st>>
+                 \* the search resumes: after a match at its end (one character further after an empty
+                 \* one), after a failure one character after the attempt (never, if anchored)
+                 /\ LET nx == IF e[3] = sr.at THEN NextBoundary(e[3]) ELSE e[3] IN
+                    sr' = IF e[2] = 1 THEN [sr EXCEPT !.from = nx, !.cursor = nx]
+                          ELSE [sr EXCEPT !.from = IF Anchored THEN Len(B) + 1 ELSE NextBoundary(sr.at)]
             ELSE Mismatch("attempt outcome differs from the machine", e)
 
 Finish ==
   /\ st = "ok" /\ l = Len(T.ev) + 1
   /\ st' = "done"
+  /\ IF sr.bad \/ RestOk(sr.from) THEN TRUE ELSE SearchNote("the record ends with admitted offsets unexamined", <<>>)
   /\ PrintT("J " \o ToJson([kind |-> "tracestat", id |-> T.rid, h |-> T.h, var |-> T.var, events |-> Len(T.ev)]))
-  /\ UNCHANGED <<k, l, vm>>
+  /\ UNCHANGED <<k, l, vm, sr>>
 
 Next == Consume \/ Finish
 Spec == Init /\ [][Next]_vars
